@@ -1,5 +1,5 @@
 (* C13, part 3: the candidates of MeCabOovPlugin::provide_oov_gen are exactly those the definition prescribes. *)
-From Coq Require Import List NArith Bool Lia ZifyBool ZifyNat ZifyN PeanoNat String.
+From Coq Require Import List NArith Bool Lia ZifyBool ZifyNat ZifyN PeanoNat String FinFun.
 From SudachiVerif Require Import Model.Oov Proofs.OovContinuity.
 Import ListNotations.
 Open Scope N_scope.
@@ -16,90 +16,166 @@ Proof.
   - intros [l [o [Hl [Ho ->]]]]. exists l. split; [exact Hl|]. apply in_map_iff. exists o. auto.
 Qed.
 
+(* candidate lengths 1..min(length, ll); length is a u32 in N *)
+Definition lens_upto (n : N) (ll : nat) : nat := N.to_nat (N.min n (N.of_nat ll)).
+
 Section Mecab.
   Hypothesis Hbreak : OF.mecab_break_cmp = ">"%string.
   Hypothesis Hincl : OF.mecab_len_inclusive = true.
   Hypothesis Hdec : OF.mecab_group_dec = 1%nat.
+  Hypothesis Hclamp : OF.mecab_break_on_clamp = true.
 
   Lemma break_eval a b : cmp_eval OF.mecab_break_cmp a b = Nat.ltb b a.
   Proof. rewrite Hbreak. reflexivity. Qed.
 
-  (* everything the length loop produces has a length within the limits *)
-  Lemma len_loop_sound len off ll oovs : forall k s nd,
-    In nd (len_loop (seq s k) len off ll oovs) ->
-    exists l o, In o oovs /\ nd = oov_node off (off + l)%nat o
-                /\ (l <= ll /\ l < s + k /\ Nat.min s (len - off) <= l)%nat.
+  (* the length loop, given enough fuel, produces exactly one block of candidates for every length i..min(length, ll),
+     whatever `length` is: when i passes ll or the end of the text the loop leaves *)
+  Lemma len_loop_closed len off ll oovs n : (off + ll <= len)%nat ->
+    forall fuel i, (S (lens_upto n ll) - i <= fuel)%nat ->
+    len_loop fuel i n len off ll oovs
+    = flat_map (fun l => map (oov_node off (off + l)) oovs) (seq i (S (lens_upto n ll) - i)).
   Proof.
-    induction k as [|k IH]; intros s nd H; [contradiction|].
-    cbn [seq len_loop] in H. rewrite break_eval in H.
-    destruct (Nat.ltb_spec ll (char_distance len off s)) as [L|L]; [contradiction|].
-    apply in_app_iff in H. destruct H as [H|H].
-    - apply in_map_iff in H. destruct H as [o [<- Ho]].
-      exists (char_distance len off s), o. unfold char_distance in *. repeat split; auto; lia.
-    - apply IH in H. destruct H as [l [o [Ho [-> B]]]]. exists l, o. repeat split; auto; lia.
+    intros Hll. unfold lens_upto. induction fuel as [|f IH]; intros i Hf.
+    - replace (S (N.to_nat (N.min n (N.of_nat ll))) - i)%nat with 0%nat by lia. reflexivity.
+    - cbn [len_loop]. unfold loop_done. rewrite Hincl, Hclamp, break_eval. cbn [andb].
+      destruct (Nat.le_gt_cases i (N.to_nat (N.min n (N.of_nat ll)))) as [L|L].
+      + replace (n <? N.of_nat i) with false by lia.
+        assert (E : char_distance len off i = i) by (unfold char_distance; lia). rewrite E.
+        replace (Nat.ltb ll i) with false by (symmetry; apply Nat.ltb_ge; lia).
+        replace (Nat.ltb i i) with false by (symmetry; apply Nat.ltb_irrefl). cbn [orb].
+        rewrite IH by lia.
+        replace (S (N.to_nat (N.min n (N.of_nat ll))) - i)%nat with (S (S (N.to_nat (N.min n (N.of_nat ll))) - S i)) by lia.
+        reflexivity.
+      + replace (S (N.to_nat (N.min n (N.of_nat ll))) - i)%nat with 0%nat by lia. cbn [seq flat_map].
+        destruct (N.ltb_spec n (N.of_nat i)); [reflexivity|].
+        assert (Hi : (ll < i)%nat) by lia.
+        destruct (Nat.ltb_spec ll (char_distance len off i)); [reflexivity|].
+        replace (Nat.ltb (char_distance len off i) i) with true by (symmetry; apply Nat.ltb_lt; lia). reflexivity.
   Qed.
 
-  (* and every length within the limits is produced *)
-  Lemma len_loop_complete len off ll oovs : (off + ll <= len)%nat -> forall k s l o,
-    (s <= l < s + k)%nat -> (l <= ll)%nat -> In o oovs ->
-    In (oov_node off (off + l)%nat o) (len_loop (seq s k) len off ll oovs).
-  Proof.
-    intros Hll. induction k as [|k IH]; intros s l o Hl Hle Ho; [lia|].
-    cbn [seq len_loop]. rewrite break_eval.
-    assert (E : char_distance len off s = s) by (unfold char_distance; lia).
-    rewrite E. destruct (Nat.ltb_spec ll s) as [L|L]; [lia|].
-    apply in_app_iff. destruct (Nat.eq_dec l s) as [->|N].
-    - left. apply in_map. exact Ho.
-    - right. apply IH; auto. lia.
-  Qed.
-
-  Lemma class_nodes_spec len off char_len n (group : bool) oovs nd :
+  Lemma class_nodes_eq len off char_len n (group : bool) oovs :
     (1 <= char_len)%nat -> (off + char_len <= len)%nat ->
-    In nd ((if group then map (oov_node off (off + char_len)) oovs else [])
-           ++ len_loop (seq 1 n) len off (if group then (char_len - 1)%nat else char_len) oovs)
-    <-> exists l o, In l ((if group then [char_len] else [])
-                          ++ seq 1 (Nat.min n (if group then pred char_len else char_len)))
-                    /\ In o oovs /\ nd = oov_node off (off + l)%nat o.
+    (if group then map (oov_node off (off + char_len)) oovs else [])
+      ++ len_loop (mecab_fuel n len off) 1 n len off (if group then (char_len - 1)%nat else char_len) oovs
+    = flat_map (fun l => map (oov_node off (off + l)) oovs)
+               ((if group then [char_len] else []) ++ seq 1 (lens_upto n (if group then pred char_len else char_len))).
   Proof.
-    intros H1 H2. rewrite in_app_iff. split.
-    - intros [H|H].
-      + destruct group; [|contradiction]. apply in_map_iff in H. destruct H as [o [<- Ho]].
-        exists char_len, o. repeat split; auto. apply in_app_iff. left. left. reflexivity.
-      + apply len_loop_sound in H. destruct H as [l [o [Ho [-> B]]]]. exists l, o. repeat split; auto.
-        apply in_app_iff. right. apply in_seq. destruct group; lia.
-    - intros [l [o [Hl [Ho ->]]]]. apply in_app_iff in Hl. destruct Hl as [Hl|Hl].
-      + destruct group; [|contradiction]. destruct Hl as [<-|[]]. left. apply in_map. exact Ho.
-      + right. apply in_seq in Hl. apply len_loop_complete; auto; destruct group; lia.
+    intros H1 H2. rewrite flat_map_app. f_equal.
+    - destruct group; [cbn; now rewrite app_nil_r|reflexivity].
+    - unfold mecab_fuel. rewrite Hclamp.
+      rewrite len_loop_closed; [| destruct group; lia | unfold lens_upto; destruct group; lia ].
+      replace (char_len - 1)%nat with (pred char_len) by lia.
+      f_equal. f_equal. lia.
+  Qed.
+
+  (* per class, the produced list IS the prescribed list (same order, no repetition) *)
+  Lemma mecab_class_eq m len off char_len other ctype :
+    (1 <= char_len)%nat -> (off + char_len <= len)%nat ->
+    mecab_class m len off char_len other ctype = prescribed_class m off char_len other ctype.
+  Proof.
+    intros H1 H2. unfold mecab_class, prescribed_class.
+    destruct (find_cinfo m ctype) as [ci|]; [|reflexivity].
+    assert (E : negb (ci_invoke ci) && negb (other =? 0) = negb (ci_invoke ci || (other =? 0)))
+      by (destruct (ci_invoke ci), (other =? 0); reflexivity).
+    rewrite E. destruct (ci_invoke ci || (other =? 0)); cbn [negb]; [|reflexivity].
+    destruct (find_oovs m (ci_type ci)) as [oovs|]; [|reflexivity].
+    unfold prescribed_lengths. rewrite Hdec. apply class_nodes_eq; assumption.
   Qed.
 
   Lemma mecab_class_spec m len off char_len other ctype nd :
     (1 <= char_len)%nat -> (off + char_len <= len)%nat ->
     In nd (mecab_class m len off char_len other ctype) <-> In nd (prescribed_class m off char_len other ctype).
-  Proof.
-    intros H1 H2. unfold mecab_class, prescribed_class.
-    destruct (find_cinfo m ctype) as [ci|]; [|tauto].
-    assert (E : negb (ci_invoke ci) && negb (other =? 0) = negb (ci_invoke ci || (other =? 0)))
-      by (destruct (ci_invoke ci), (other =? 0); reflexivity).
-    rewrite E. destruct (ci_invoke ci || (other =? 0)); cbn [negb]; [|tauto].
-    destruct (find_oovs m (ci_type ci)) as [oovs|]; [|tauto].
-    unfold len_range, prescribed_lengths. rewrite Hincl, Hdec, in_flat_nodes.
-    apply class_nodes_spec; assumption.
-  Qed.
+  Proof. intros H1 H2. rewrite mecab_class_eq by assumption. tauto. Qed.
 
   (* MeCabOovPlugin: for all definitions, texts, offsets and states of the created-words set, the produced candidates are
-     (as a set) the prescribed ones, where the class run is the one of the left-to-right specification *)
-  Lemma mecab_candidates_generic m cs off other ns :
+     the prescribed ones, where the class run is the one of the left-to-right specification *)
+  Lemma mecab_provide_eq_prescribed m cs off other ns :
     continuity cs = continuity_spec cs ->
-    mecab_provide m cs (continuity cs) off other = ROk ns ->
-    forall nd, In nd ns <-> In nd (prescribed m cs off other).
+    mecab_provide m cs (continuity cs) off other = ROk ns -> ns = prescribed m cs off other.
   Proof.
-    intros Hc H nd. unfold mecab_provide in H. unfold prescribed. rewrite Hc in H.
+    intros Hc H. unfold mecab_provide in H. unfold prescribed. rewrite Hc in H.
     destruct (nth_error (continuity_spec cs) off) as [char_len|] eqn:E1; [|discriminate].
     destruct (nth_error cs off) as [c|] eqn:E2; [|discriminate].
     apply spec_bound in E1. destruct E1 as [B1 B2].
     destruct (Nat.eqb_spec char_len 0) as [Z|Z]; [lia|]. injection H as <-.
-    rewrite !in_flat_map. split; intros [ct [Hct Hn]]; exists ct; (split; [exact Hct|]);
-      apply (mecab_class_spec m (List.length cs) off char_len other ct nd); auto.
+    apply flat_map_ext. intros ct. apply mecab_class_eq; assumption.
+  Qed.
+
+  Lemma mecab_candidates_generic m cs off other ns :
+    continuity cs = continuity_spec cs ->
+    mecab_provide m cs (continuity cs) off other = ROk ns ->
+    forall nd, In nd ns <-> In nd (prescribed m cs off other).
+  Proof. intros Hc H nd. rewrite (mecab_provide_eq_prescribed m cs off other ns Hc H). tauto. Qed.
+
+  (* ---- no repeated candidate, and a bound that does not depend on `length` ---- *)
+  Lemma oov_node_inj b e : FinFun.Injective (oov_node b e).
+  Proof. intros [l1 r1 c1 p1] [l2 r2 c2 p2] H. unfold oov_node in H. cbn in H. injection H as -> -> -> ->. reflexivity. Qed.
+
+  Lemma NoDup_app_disjoint {A} (l1 l2 : list A) :
+    NoDup l1 -> NoDup l2 -> (forall x, In x l1 -> ~ In x l2) -> NoDup (l1 ++ l2).
+  Proof.
+    induction l1 as [|a t IH]; intros N1 N2 D; [exact N2|].
+    inversion N1 as [|? ? Ha Nt]; subst. cbn. constructor.
+    - intros H. apply in_app_iff in H. destruct H as [H|H]; [contradiction|]. apply (D a); [left; reflexivity|exact H].
+    - apply IH; auto. intros x Hx. apply D. right. exact Hx.
+  Qed.
+
+  Lemma NoDup_flat_nodes off oovs : NoDup oovs -> forall L, NoDup L ->
+    NoDup (flat_map (fun l => map (oov_node off (off + l)) oovs) L).
+  Proof.
+    intros No. induction L as [|a L IH]; intros NL; [constructor|].
+    inversion NL as [|? ? Ha NL']; subst. cbn [flat_map]. apply NoDup_app_disjoint.
+    - apply FinFun.Injective_map_NoDup; [apply oov_node_inj|exact No].
+    - apply IH. exact NL'.
+    - intros x Hx Hy. apply in_map_iff in Hx. destruct Hx as [o [<- _]].
+      apply in_flat_nodes in Hy. destruct Hy as [l [o' [Hl [_ E]]]].
+      assert (a = l) by (apply (f_equal n_end) in E; cbn in E; lia). subst. contradiction.
+  Qed.
+
+  Lemma prescribed_lengths_NoDup ci char_len : (1 <= char_len)%nat -> NoDup (prescribed_lengths ci char_len).
+  Proof.
+    intros H. unfold prescribed_lengths. apply NoDup_app_disjoint.
+    - destruct (ci_group ci); [constructor; [intros []|constructor]|constructor].
+    - apply seq_NoDup.
+    - intros x Hx Hy. destruct (ci_group ci); [|contradiction]. destruct Hx as [<-|[]]. apply in_seq in Hy. lia.
+  Qed.
+
+  Lemma prescribed_lengths_length ci char_len : (1 <= char_len)%nat ->
+    (List.length (prescribed_lengths ci char_len) <= char_len)%nat.
+  Proof.
+    intros H. unfold prescribed_lengths. rewrite app_length, seq_length. destruct (ci_group ci); cbn [List.length]; lia.
+  Qed.
+
+  Theorem mecab_no_duplicates_generic m len off char_len other ctype :
+    (1 <= char_len)%nat -> (off + char_len <= len)%nat ->
+    (forall t oovs, In (t, oovs) (m_oovs m) -> NoDup oovs) ->
+    NoDup (mecab_class m len off char_len other ctype).
+  Proof.
+    intros H1 H2 Hn. rewrite mecab_class_eq by assumption. unfold prescribed_class.
+    destruct (find_cinfo m ctype) as [ci|]; [|constructor].
+    destruct (ci_invoke ci || (other =? 0)); [|constructor].
+    destruct (find_oovs m (ci_type ci)) as [oovs|] eqn:E; [|constructor].
+    apply NoDup_flat_nodes; [|apply prescribed_lengths_NoDup; exact H1].
+    unfold find_oovs in E. destruct (find (fun p => fst p =? ci_type ci) (m_oovs m)) as [[t o]|] eqn:F; [|discriminate].
+    cbn in E. injection E as ->. apply find_some in F. destruct F as [F _]. apply (Hn t oovs F).
+  Qed.
+
+  Lemma flat_nodes_length off oovs L :
+    List.length (flat_map (fun l => map (oov_node off (off + l)) oovs) L) = (List.length L * List.length oovs)%nat.
+  Proof. induction L as [|a L IH]; [reflexivity|]. cbn [flat_map List.length]. rewrite app_length, map_length, IH. lia. Qed.
+
+  Theorem mecab_candidates_bounded_generic m len off char_len other ctype bound :
+    (1 <= char_len)%nat -> (off + char_len <= len)%nat ->
+    (forall t oovs, In (t, oovs) (m_oovs m) -> (List.length oovs <= bound)%nat) ->
+    (List.length (mecab_class m len off char_len other ctype) <= char_len * bound)%nat.
+  Proof.
+    intros H1 H2 Hb. rewrite mecab_class_eq by assumption. unfold prescribed_class.
+    destruct (find_cinfo m ctype) as [ci|]; [|cbn; lia].
+    destruct (ci_invoke ci || (other =? 0)); [|cbn; lia].
+    destruct (find_oovs m (ci_type ci)) as [oovs|] eqn:E; [|cbn; lia].
+    rewrite flat_nodes_length. pose proof (prescribed_lengths_length ci char_len H1).
+    unfold find_oovs in E. destruct (find (fun p => fst p =? ci_type ci) (m_oovs m)) as [[t o]|] eqn:F; [|discriminate].
+    cbn in E. injection E as ->. apply find_some in F. destruct F as [F _]. specialize (Hb t oovs F). nia.
   Qed.
 End Mecab.
 
@@ -114,7 +190,7 @@ Lemma prescribed_iff m cs off other nd :
     /\ find_oovs m (ci_type ci) = Some oovs /\ In o oovs     (* one of its unknown-word definitions *)
     /\ nd = oov_node off (off + l)%nat o                     (* ids, cost, part of speech of that definition *)
     /\ ((ci_group ci = true /\ l = char_len)                 (* the grouped candidate spanning the run *)
-        \/ (1 <= l <= ci_length ci /\ l <= (if ci_group ci then pred char_len else char_len))%nat).
+        \/ ((1 <= l)%nat /\ N.of_nat l <= ci_length ci /\ (l <= (if ci_group ci then pred char_len else char_len))%nat)).
 Proof.
   unfold prescribed. split.
   - destruct (nth_error (continuity_spec cs) off) as [char_len|]; [|contradiction].
@@ -253,16 +329,16 @@ Definition prescribed_prop (m : mecab) (cs : list N) (off : nat) (other : N) (nd
     /\ find_oovs m (ci_type ci) = Some oovs /\ In o oovs
     /\ nd = oov_node off (off + l)%nat o
     /\ ((ci_group ci = true /\ l = char_len)
-        \/ (1 <= l <= ci_length ci /\ l <= (if ci_group ci then pred char_len else char_len))%nat).
+        \/ ((1 <= l)%nat /\ N.of_nat l <= ci_length ci /\ (l <= (if ci_group ci then pred char_len else char_len))%nat)).
 
 Lemma mecab_candidates_explicit :
   OF.mecab_break_cmp = ">"%string -> OF.mecab_len_inclusive = true -> OF.mecab_group_dec = 1%nat ->
-  OF.continuity_forward = true ->
+  OF.mecab_break_on_clamp = true -> OF.continuity_forward = true ->
   forall m cs off other ns,
     mecab_provide m cs (continuity cs) off other = ROk ns ->
     forall nd, In nd ns <-> prescribed_prop m cs off other nd.
 Proof.
-  intros F1 F2 F3 F4 m cs off other ns H nd.
-  rewrite (mecab_candidates_generic F1 F2 F3 m cs off other ns (continuity_eq_spec_generic F4 cs) H nd).
+  intros F1 F2 F3 F5 F4 m cs off other ns H nd.
+  rewrite (mecab_candidates_generic F1 F2 F3 F5 m cs off other ns (continuity_eq_spec_generic F4 cs) H nd).
   apply prescribed_iff.
 Qed.
